@@ -2,6 +2,7 @@
 pub mod batch;
 pub mod prog;
 pub mod srccase;
+pub mod textmut;
 pub mod progen;
 pub mod vals;
 pub mod values;
